@@ -1,5 +1,6 @@
 """C15 - a rejected edit / configuration call leaves the system untouched (twin-run oracle)."""
 
+import copy
 import random
 
 from .. import harness as H, hist, loader
@@ -145,6 +146,7 @@ def run(ctx, case):
     queue = []
     history = []
     o2 = prev = None
+    rejected_names = []
     every = case.get("observe_every", 1)
     twin_dirty, burst = False, []
     with H.tmpdir() as d:
@@ -168,6 +170,14 @@ def run(ctx, case):
                 cls = "conf"
             else:
                 op = hist.random_op(rng, L)
+                if op["op"] == "add_comp" and rejected_names and rng.random() < 0.4:
+                    # a retry under a name / rail that an earlier REJECTED call wanted to use (it is still free)
+                    nm = rng.choice(rejected_names)
+                    if nm not in L["names"] and nm not in L["rails"].values():
+                        if rng.random() < 0.5:
+                            op["comp"]["name"] = nm
+                        elif L["kinds"].get(op["parent"] if isinstance(op["parent"], str) else "", "") and op["comp"]["kind"] not in ("PLoad", "ILoad", "RLoad"):
+                            op["rail"] = nm
             s1, e1 = hist.apply(subject, op, ns)
             history.append({"op": op, "class": cls, "outcome": "accepted" if s1 == "ok" else H.exc_sig(e1)})
             if s1 == "ok":
@@ -184,6 +194,20 @@ def run(ctx, case):
                 classes.add(cls)
                 ctx.count("rejected_class", cls)
                 ctx.count("rejected_exception", type(e1).__name__)
+                for nm in ((op.get("comp") or {}).get("name"), op.get("rail")):
+                    if isinstance(nm, str) and nm and nm not in L["names"] and nm not in L["rails"].values() and nm != "nope":
+                        rejected_names.append(nm)
+                # would a system that never saw the rejected calls have refused this call too?  (probed on a COPY of the
+                # twin, so that the twin itself keeps seeing accepted calls only)
+                probe = copy.deepcopy(twin)
+                sp_, ep_ = hist.apply(probe, op, ns)
+                if sp_ == "ok":
+                    ctx.check("rejected.state_unchanged", False,
+                              {"refused_call": op, "class": cls, "exception": H.exc_sig(e1),
+                               "why": "the same call is accepted by a system that went through the same accepted calls but never saw the rejected ones",
+                               "rejected_calls_so_far": [h for h in history if h["outcome"] != "accepted"][-6:], "start": start,
+                               "kind": "later_call_refused/" + op["op"]})
+                    break
             twin_dirty = twin_dirty or s1 == "ok"
             burst.append(k)
             if every > 1 and (k + 1) % every != 0 and k != case["n_ops"] - 1:
